@@ -31,6 +31,8 @@ class Row:                       # row of a transition_table
     aid: int = -1
     gexpr: object = None         # guard expression over named atoms: 'G1' | ('not', x) | ('and', x, y) | ('or', x, y)
     aseq: object = None          # list of named actions, run in written order
+    local: bool = False          # front-end variants: an internal row (tgt None) that the functor front-end writes in the
+                                 # source state's own internal_transition_table (Internal<>), the others in the main table
 
 
 @dataclass
